@@ -10,7 +10,7 @@ CLAIMED = {
         text='Inductive step obligations: from any state in which the pool manager holds, per denom, the summed reserves of two pools sharing a denom plus a '
              'symbolic non-negative excess (and per pool the locked 1000 LP plus excess), every operation reached through the public messages (swap, two-asset '
              'deposit, single-asset deposit via sub-message + reply, withdrawal; routed swaps in the thorough tier) leaves balance - reserves equal to the same '
-             'excess (plus amount mod 2 for single-asset deposits) and the LP holdings unchanged. One step from an arbitrary invariant state covers histories of any length. Also: locked deposits across both contracts (LP goes to the farm manager, reserves stay backed) and a three-asset stableswap pool with the Curve arithmetic abstracted (accounting only).',
+             'excess (plus amount mod 2 for single-asset deposits) and the LP holdings unchanged. One step from an arbitrary invariant state covers histories of any length. Also: locked deposits across both contracts (LP goes to the farm manager, reserves stay backed) and a three-asset stableswap pool with the Curve arithmetic abstracted (accounting only). Routed swaps incl. routes revisiting a pool (C04.R1 shared) and pool creation next to a funded pool whose reserves are in the fee denoms (C16.S1 shared).',
         ref='DESIGN.md §6 C01',
         note=TRUST + 'Pool creation (nothing kept) and first deposits (minimum liquidity locked) are discharged under C16 / C02; rejected operations change nothing by the rollback rule.'),
     'C02': dict(
@@ -45,14 +45,14 @@ CLAIMED = {
     'C06': dict(
         text='Bounded histories of claims by two explicit users (plus an aggregated remainder of other users) on one farm, executed through the public '
              'Claim message from symbolic weights/rates: every rightful claim succeeds in any order, each user is paid exactly the ledger sum of their '
-             'epoch shares (nothing before their weight took effect, nothing twice), the total stays within emission x elapsed epochs and the budget. Also: a user with positions in two LP tokens whose identifiers interleave the tokens (each LP paid exactly once, farm books exactly the payment).',
+             'epoch shares (nothing before their weight took effect, nothing twice), the total stays within emission x elapsed epochs and the budget. Also: a user with positions in two LP tokens whose identifiers interleave the tokens (each LP paid exactly once, farm books exactly the payment). Also: a claim cursor older than the first weight on the LP token (nothing paid for the gap) and an until_epoch below the cursor (refused, nothing paid twice).',
         ref='DESIGN.md §6 C06',
         note=TRUST + 'Bounded: 3 claims, window of 10 epochs, concrete snapshot epochs; sum of user weights <= total weight is assumed (C10).'),
     'C07': dict(
         text='Claims executed through the public Claim message on a bounded epoch window (current epoch 10, concrete snapshot / farm epochs, symbolic '
              'weights, rates and budgets): the amount paid equals an independent ledger sum of floor(emission * weight in effect / total in effect); cursor, '
              'claimed_amount, weights after the claimed span and other users are checked; Rewards query equals Claim; splitting a claim with until_epoch '
-             'pays the same total (relational, two executions). Also: a user with positions in two LP tokens (per-LP sums, Rewards query per denom); thorough tier: EVERY shape of the epoch window (second snapshot x until_epoch x cursor x three farm spans) and every split epoch.',
+             'pays the same total (relational, two executions). Also: a user with positions in two LP tokens (per-LP sums, Rewards query per denom); thorough tier: EVERY shape of the epoch window (second snapshot x until_epoch x cursor x three farm spans) and every split epoch. Also: two farms whose identifier order differs from their start order (bounded claim, per-farm booking, query, following claim) and an expired but never closed farm 39 epochs later (query = claim = epoch shares).',
         ref='DESIGN.md §6 C07',
         note=TRUST + 'Bounded: 2 explicit users plus an aggregated remainder, 1-2 farms, window of 10 epochs; the weight-history representation invariant '
              '(no snapshot older than the claim cursor) is assumed in pre-states.'),
@@ -61,12 +61,12 @@ CLAIMED = {
              'sender role (owner, stranger, pool manager), open/closed state, amounts, times and expiry are symbolic or case-split; authorisation, the exact '
              'unlock boundary, full payment, LP conservation on partial closes, id prefixes and non-interference with other positions are decided per path. '
              'Locked deposits: ProvideLiquidity with an unlocking duration executed across BOTH contracts (pool manager execute / reply -> farm manager execute, '
-             'Positions query back) for 4 lock targets x 2 receivers, one and two assets: only the sender own positions grow, by exactly the minted shares.',
+             'Positions query back) for 4 lock targets x 2 receivers, one and two assets: only the sender own positions grow, by exactly the minted shares. Positions are also named without the u- prefix (must be refused, no record under another identifier); explicit identifiers of other users are refused.',
         ref='DESIGN.md §6 C08',
         note=TRUST + 'Identifiers are concrete (fresh / taken).'),
     'C09': dict(
         text='calculate_emergency_penalty executed symbolically (amount, duration, base penalty, times full range): <= 90%, equals the capped product with '
-             'the code\'s 18-decimal floors, zero once unlocked, non-increasing in time. Also: 12 farms on the LP token with the only active one last in identifier order (beyond a default listing page).',
+             'the code\'s 18-decimal floors, zero once unlocked, non-increasing in time. Also: 12 farms on the LP token with the only active one last in identifier order (beyond a default listing page). Quick tier: two active farms with one owner (one share) and with two owners.',
         ref='DESIGN.md §6 C09',
         note=TRUST + 'Handler-level split of the penalty between fee collector and farm owners is covered by the position step obligations when built.'),
     'C10': dict(
@@ -74,21 +74,21 @@ CLAIMED = {
              'monotone in amount and in duration (relational: two executions compared). Step obligations on all 15 farm-manager operations (incl. on-behalf operations by the pool manager), on positions filled in two pieces, and on '
              'locked deposits across both contracts: the total weight and the '
              'acting user weight recorded for the next epoch move by exactly the same amount, nothing moves for closed positions / claims / farm operations, current-epoch '
-             'weights are untouched, the total covers the users, and a user without open positions has no weight.',
+             'weights are untouched, the total covers the users, and a user without open positions has no weight. Also recorded weights above the position weight by a rounding remainder (last position closed: no weight left).',
         ref='DESIGN.md §6 C10',
         note=TRUST + 'Pre-state: each user weight equals the sum of the weights of the pieces their open position was filled with (one piece, or two pieces of symbolic size).'),
     'C11': dict(
         text='Step obligations on the public ManageFarm messages: creation under every fee configuration (fee amount symbolic incl. zero, fee in the reward denom '
              'or another) and attached-funds shape (exact, reward only, extra coin, overpaid fee), automatic closing of expired farms with refunds to their owners, '
              'the concurrent-farm limit, expansion (owner only, before the end, same denom, multiples of the rate) and closing (farm owner or contract owner, exact '
-             'remainder to the farm owner only).',
+             'remainder to the farm owner only). Limits between the listing default page and its maximum (N in {12, 11, 37, 100}); explicit farm identifiers unique across LP tokens.',
         ref='DESIGN.md §6 C11',
         note=TRUST + 'At most 2 pre-existing farms per LP token (max_concurrent_farms = 2); epoch/time consistency assumed from C18.'),
     'C12': dict(
         text='Relational obligations: Simulation vs Swap on the same symbolic constant-product state (all amounts equal on every accepted path); '
              'SimulateSwapOperations vs ExecuteSwapOperations over a 2-hop route with the pricing kernel as an uninterpreted function (glue only); '
              'reverse quote + 1 unit suffices (zero fees: full range; with fees: three fixed fee configurations, ask < 1e18 while the recorded precision '
-             'finding is open). Reverse quote: five fixed fee configurations incl. one and two extra fees, native replay ReverseSimulation -> Simulation(q+1).',
+             'finding is open). Reverse quote: five fixed fee configurations incl. one and two extra fees, native replay ReverseSimulation -> Simulation(q+1). Every amount the Swap REPORTS (response attributes) equals the quote, also when the receiver is the fee collector.',
         ref='DESIGN.md §6 C12',
         note=TRUST + 'Paths where the forward swap of the quote is itself refused are outside the reverse-quote obligation.'),
     'C13': dict(
@@ -103,20 +103,20 @@ CLAIMED = {
         text='Relational obligation: from one symbolic funded two-asset pool the real single-asset chain (execute -> self Swap sub-message -> reply -> self '
              'ProvideLiquidity) and the manual sequence Swap(half) + ProvideLiquidity(half, proceeds) are both executed; reserves, LP minted to the sender, fees and '
              'balances are equal, the leftover is amount mod 2, the temporary buffer is gone; refusals on empty / 3-asset pools and when locking for another receiver. Locked deposits executed across both contracts '
-             '(4 lock targets x 2 receivers): never locks for, or expands a position of, anyone but the sender.',
+             '(4 lock targets x 2 receivers): never locks for, or expands a position of, anyone but the sender. The three-asset refusal has a native replay (pricing abstracted behind the missing refusal).',
         ref='DESIGN.md §6 C14',
         note=TRUST + 'Constant-product pools.'),
     'C15': dict(
         text='Complete case split (contract x privileged message x sender role x pending transfer x funds), each case decided on the real dispatchers and the '
              'cw-ownable / mantra-utils code executed from their MIR: accepted only from the authorised role and without funds, storage unchanged on rejection, '
-             'ownership moves only by propose + accept or ends by renounce. The position / farm authorisation obligations of C08 (withdraw, close, create, expand, emergency exit: sender roles incl. the pool manager) and C11 (farm expand / close) are registered here as well.',
+             'ownership moves only by propose + accept or ends by renounce. The position / farm authorisation obligations of C08 (withdraw, close, create, expand, emergency exit: sender roles incl. the pool manager) and C11 (farm expand / close) are registered here as well. So are the cross-contract locked deposits (C15.L1: the pool manager tops up only positions of the sender).',
         ref='DESIGN.md §6 C15',
         note=TRUST + 'Farm / position authorisations are part of C08 and C11.'),
     'C16': dict(
         text='create_pool executed through the public CreatePool message with symbolic creation fee, token-factory fee coins (none / other denom / same '
              'denom / both) and arbitrary attached amounts: accepted iff funds equal exactly the required fees, fee routed to the collector, nothing kept, '
              'parameter validation (asset counts, duplicates, decimals length, fee bounds, amp, identifier well-formed and unused) decided over the whole case '
-             'split with symbolic fee shares; deposits keep every immutable pool field and the asset order. CreatePool parameter violations are replayed natively; three-asset stableswap pool: immutable fields and asset order unchanged by deposits, withdrawals, swaps.',
+             'split with symbolic fee shares; deposits keep every immutable pool field and the asset order. CreatePool parameter violations are replayed natively; three-asset stableswap pool: immutable fields and asset order unchanged by deposits, withdrawals, swaps. Creation parameters include 0-2 symbolic extra fees under the 20% total; creation runs next to a funded pool in the fee denoms.',
         ref='DESIGN.md §6 C16',
         note=TRUST + 'Identifiers are concrete strings (fresh / taken / malformed); immutability is checked on deposits, swaps and withdrawals via the reserve-only '
              'post-conditions of C02/C04.'),
